@@ -167,13 +167,13 @@ class Strh(ThumbInstruction):
 
     def encode(self):
         opcode = 0x10
-        if self.imm5 < 0:
-            raise ValueError(f"Cannot encode negative offset {self.imm5}")
+        if self.imm5 % 2 or not 0 <= self.imm5 <= 62:
+            raise ValueError(f"Cannot encode halfword offset {self.imm5}")
         assert self.rn.num < 8
         assert self.rt.num < 8
         rn = self.rn.num
         rt = self.rt.num
-        imm5 = self.imm5 << 1
+        imm5 = self.imm5 >> 1
         tokens = self.get_tokens()
         tokens[0][0:3] = rt
         tokens[0][3:6] = rn
@@ -192,11 +192,13 @@ class Ldrh(ThumbInstruction):
 
     def encode(self):
         opcode = 0x11
+        if self.imm5 % 2 or not 0 <= self.imm5 <= 62:
+            raise ValueError(f"Cannot encode halfword offset {self.imm5}")
         assert self.rn.num < 8
         assert self.rt.num < 8
         rn = self.rn.num
         rt = self.rt.num
-        imm5 = self.imm5
+        imm5 = self.imm5 >> 1
         tokens = self.get_tokens()
         tokens[0][0:3] = rt
         tokens[0][3:6] = rn
